@@ -9,7 +9,7 @@ import re
 from ..core import where
 from .. import hirq as H
 from ..intervals import Engine, fmt_desc
-from ..facts import describe_operand
+from ..facts import describe_operand, norm
 from ..panics import Inventory
 
 ENTRY = ' as ord::index::entry::Entry>::'
@@ -242,6 +242,7 @@ def run(ctx):
     ctx.ob('R35.1', f'<ord::inscriptions::inscription_id::InscriptionId{ENTRY}store', 'slot 0 = txid bytes [..16], slot 1 = txid bytes [16..], slot 2 = self.index', bool(oks), f'{r0} {r1}', f"{is_['file']}:{is_['line']}")
 
   _r35_4(ctx)
+  _r35_5(ctx)
   # ---------------- R35.2
   sl = F.bodies.get('<(u64, u64)' + ENTRY + 'load')
   ss = F.bodies.get('<(u64, u64)' + ENTRY + 'store')
@@ -395,3 +396,165 @@ def _r35_4(ctx):
       d = fmt_desc(describe_operand(mg, c.args[0]))
       ok = ok or ('sat_ranges(UtxoEntry::parse(a,index))' in d and 'sat_ranges(UtxoEntry::parse(b,index))' in d and d.index('(a,index)') < d.index('(b,index)'))
     ctx.ob('R35.4', mg.n, 'merged concatenates the sat ranges of both operands, a before b', ok, '', where(mg, mg.line))
+
+
+# ------------------------------------------------------------------------------------------------ R35.5 typestate
+
+BUF = 'ord::index::utxo_entry::UtxoEntryBuf::'
+S0, S1, V, BAD = 'need-sats', 'need-script', 'valid', 'misused'
+
+
+def _r35_5(ctx):
+  """Typestate of every UtxoEntryBuf held in a local, on every path, for both settings of index_addresses.  The builder only checks
+  this protocol at run time and only in debug builds (advance_state); a release build silently writes a misaligned entry."""
+  F = ctx.facts
+  ctx.rule('R35.5', 'typestate of UtxoEntryBuf locals (all bodies that create one): new() needs exactly one push_value / push_sat_ranges, then push_script_pubkey exactly when index_addresses, '
+           'and only then inscriptions, as_ref / parse / deref, being returned or stored; empty() and merged() yield complete entries. Checked on every path for index_addresses on and off')
+  n_bodies = 0
+  n_calls = 0
+  for b in F.bodies.values():
+    if not b.file.startswith('src/') or '::tests::' in b.n:
+      continue
+    creates = [c for c in b.calls if c.name in (BUF + 'new', BUF + 'empty', BUF + 'merged')]
+    if not creates:
+      continue
+    n_bodies += 1
+    ctx.analysed(b)
+    for addr in (True, False):
+      issues, uses = _typestate(b, addr)
+      n_calls += uses
+      ctx.ob('R35.5', b.n, f'UtxoEntryBuf protocol respected on every path (index_addresses = {str(addr).lower()})', not issues, '; '.join(issues[:3]), where(b, b.line))
+  ctx.floor('R35.5', 'bodies that build a UtxoEntryBuf', n_bodies, 5)
+  ctx.sites(n_calls)
+
+
+def _referent_local(b, op):
+  """local behind `&mut L` / `&L` / a copy or move of L (single-definition temporaries only)"""
+  p = op.get('c') or op.get('m')
+  for _ in range(6):
+    if p is None:
+      return None
+    if p.get('p'):
+      # (*tmp) where tmp = &mut L
+      if p['p'] == ['*']:
+        pass
+      else:
+        return None
+    ds = [d for d in b.defs().get(p['l'], []) if d['kind'] == 'assign' and not d['proj']]
+    if b.local_name(p['l']) is not None or not ds:
+      return p['l'] if not (p.get('p') and p['p'] != ['*']) else None
+    if len(ds) != 1:
+      return p['l']
+    rv = ds[0]['rv']
+    if rv['k'] == 'ref':
+      p = rv['p']
+    elif rv['k'] == 'use':
+      p = rv['o'].get('c') or rv['o'].get('m')
+    else:
+      return p['l']
+  return None
+
+
+def _typestate(b, addresses):
+  from ..facts import describe_cond
+  issues = []
+  uses = 0
+  reach = b.reachable_from(0)
+  ins = {0: {}}
+  work = [0]
+  seen_edges = set()
+  rounds = 0
+  while work and rounds < 5000:
+    rounds += 1
+    bb = work.pop()
+    st = dict(ins.get(bb, {}))
+    for s in b.blocks[bb]['s']:
+      if 'p' not in s or 'rv' not in s:
+        continue
+      dst = s['p']
+      rv = s['rv']
+      if rv['k'] == 'use' and not dst.get('p'):
+        src = rv['o'].get('c') or rv['o'].get('m')
+        if src and not src.get('p') and src['l'] in st:
+          st[dst['l']] = st[src['l']]
+          if dst['l'] == 0 and st[src['l']] - {V}:
+            issues.append(f'an entry in state {sorted(st[src["l"]] - {V})} is returned (line {s["l"]})')
+        elif not dst.get('p') and dst['l'] in st and not (src and src.get('p')):
+          st.pop(dst['l'], None)
+    t = b.blocks[bb]['t']
+    succ = list(b.succ(bb))
+    if t['k'] == 'call':
+      nm = norm(t['f'].get('res') or t['f'].get('fn') or '')
+      d = t.get('d')
+      if nm == BUF + 'new' and d is not None and not d.get('p'):
+        st[d['l']] = frozenset({S0})
+      elif nm in (BUF + 'empty', BUF + 'merged') and d is not None and not d.get('p'):
+        st[d['l']] = frozenset({V})
+      elif nm.startswith(BUF) and t['args']:
+        meth = nm[len(BUF):]
+        L = _referent_local(b, t['args'][0])
+        if L is not None and L in st:
+          uses += 1
+          cur = st[L]
+          new = set()
+          for x in cur:
+            if meth in ('push_value', 'push_sat_ranges'):
+              if x != S0:
+                issues.append(f'{meth} on an entry that is {x} (line {t["l"]})')
+                new.add(BAD)
+              else:
+                new.add(S1 if addresses else V)
+            elif meth == 'push_script_pubkey':
+              if x != S1:
+                issues.append(f'push_script_pubkey on an entry that is {x} (line {t["l"]})')
+                new.add(BAD)
+              else:
+                new.add(V)
+            elif meth in ('push_inscription', 'push_inscriptions', 'as_ref', 'parse', 'to_buf'):
+              if x != V:
+                issues.append(f'{meth} on an entry that is {x} (line {t["l"]})')
+              new.add(x)
+            else:
+              new.add(x)
+          st[L] = frozenset(new)
+      elif nm.endswith('Deref>::deref') and t['args']:
+        L = _referent_local(b, t['args'][0])
+        if L is not None and L in st and st[L] - {V}:
+          issues.append(f'deref of an entry that is {sorted(st[L] - {V})} (line {t["l"]})')
+      else:
+        # an entry handed to any other call by value must be complete
+        for a in t['args']:
+          src = a.get('m')
+          if src and not src.get('p') and src['l'] in st and st[src['l']] - {V} and b.local_ty(src['l']) and 'UtxoEntryBuf' in b.local_ty(src['l']) and not b.local_ty(src['l']).startswith('&'):
+            issues.append(f'an entry in state {sorted(st[src["l"]] - {V})} is passed to {nm.split("::")[-1]} (line {t["l"]})')
+    if t['k'] == 'switch':
+      # follow only the edge that matches the assumed index_addresses
+      d = fmt_desc(describe_cond(b, t['d']))
+      if d.endswith('index_addresses') and not d.startswith('discr('):
+        keep = []
+        for lab, tgt in b.switch_edges(bb):
+          vals = [v for v, _ in t['vals']]
+          truth = (lab == 'otherwise' and vals == [0]) or (lab != 'otherwise' and bool(lab))
+          if truth == addresses:
+            keep.append(tgt)
+        succ = keep or succ
+    for sx in succ:
+      if sx not in reach:
+        continue
+      old = ins.get(sx)
+      if old is None:
+        ins[sx] = dict(st)
+        work.append(sx)
+      else:
+        merged = dict(old)
+        changed = False
+        for k, v in st.items():
+          nv = frozenset(old.get(k, frozenset()) | v) if k in old else v
+          if old.get(k) != nv:
+            merged[k] = nv
+            changed = True
+        if changed:
+          ins[sx] = merged
+          work.append(sx)
+  import re as _re
+  return sorted(set(issues), key=lambda x: int((_re.search(r'line (\d+)', x) or [0, 0])[1])), uses
